@@ -209,7 +209,7 @@ def case_explog_batch(H, g, sa):
             items += m.full_terms(pp.LieTensor(a.reshape(-1, ADIM[g])[k], ltype=ATYPE[g]).Exp().tensor())
         ok = isinstance(E, pp.LieTensor) and E.ltype == GTYPE[g] and tuple(E.lshape) == tuple(sa)
         return et, items, ok
-    for ctx, (et, items, ok) in run_paths(H, name, prog, max_paths=16, max_decisions=30):
+    for ctx, (et, items, ok) in run_paths(H, name, prog, max_paths=(64 if g == "Sim3" else 16), max_decisions=40):
         H.prove('%s/path%d/meta' % (name, H.paths), [], z3.BoolVal(bool(ok)), key='C06/batch/Exp')
         H.prove('%s/path%d/items' % (name, H.paths), H.hyps_of(ctx, pairs=False), z3.And([a == b for a, b in zip(et, items)]) if len(et) == len(items) else z3.BoolVal(False),
                 key='C06/batch/Exp', timeout=15)
@@ -384,7 +384,7 @@ def case_nonmutation(H):
                         return True, '%s changed the values of its argument(s) %s in place (arguments %s)' % (tname, diffs, variant)
                 return False, 'no argument changed on the replay battery'
             try:
-                for ctx, changed in run_paths(H, name, prog, max_paths=(8 if H.quick else 32), max_decisions=40, raised=on_raise, feas_timeout_ms=(250 if H.quick else 1500)):
+                for ctx, changed in run_paths(H, name, prog, max_paths=(8 if H.quick else 96), max_decisions=40, raised=on_raise, feas_timeout_ms=(250 if H.quick else 1500)):
                     H.prove('%s/path%d' % (name, H.paths), [], z3.BoolVal(not changed), replay=replay, key='C06/non-mutation/%s' % tname)
             except Exception as e:
                 H.engine_error(name, e)
